@@ -534,6 +534,8 @@ class Explorer:
         self.collect_witnesses = os.environ.get("PYVC_WITNESSES", "") == "1"
         self.witness_cap = int(os.environ.get("PYVC_WITNESS_CAP", "200"))
         self.witnesses = []
+        self.loop_exit_wanted = set()
+        self.loop_exit_seen = set()
         self.label = label
         self.logic = logic
         self.solver = z3.SolverFor(logic) if logic else z3.Solver()
